@@ -19,7 +19,7 @@ pub fn plan(tier: &str, seed: u64) -> Vec<Batch> {
     };
     let mut v = Vec::new();
     let nl = attack::race_lookups().len() as u64;
-    let nm = attack::race_mutations().len() as u64;
+    let nm = (attack::race_mutations().len() + attack::race_compound().len()) as u64;
     for uni in [UniCfg::e(), UniCfg::k()] {
         // exhaustive single placement: one batch per lookup scenario
         for i in 0..nl {
@@ -108,7 +108,8 @@ pub fn run(u: &mut Universe, b: &Batch, st: &mut Stats) {
         st.harness_errors.push(format!("warm-up: {e}"));
         return;
     }
-    let muts = attack::race_mutations();
+    let mut muts: Vec<(Vec<crate::world::Mutation>, Option<crate::world::Mutation>)> = attack::race_mutations().into_iter().map(|(m, u)| (vec![m], u)).collect();
+    muts.extend(attack::race_compound().into_iter().map(|c| (c, None)));
     let nm = muts.len() as u64;
     for idx in b.lo..b.hi {
         coord::progress(idx);
@@ -131,7 +132,8 @@ pub fn run(u: &mut Universe, b: &Batch, st: &mut Stats) {
                 let w = case.world.clone().unwrap();
                 let mut atk = Attacker::new(&w);
                 if case.extra["race_world"].as_bool() == Some(true) {
-                    atk.catalogue = Some(muts.clone());
+                    atk.catalogue = Some(attack::race_mutations());
+                    atk.compound = attack::race_compound();
                 }
                 let mut out = run_case(u, &case, &mut atk, false);
                 if let Some(e) = &out.harness_error {
@@ -158,7 +160,7 @@ pub fn run(u: &mut Universe, b: &Batch, st: &mut Stats) {
                 let wins = lib_windows(&out0, 0);
                 st.count("enum.windows_total", wins.len() as u64);
                 for &wd in &wins {
-                    let case = enum_case(&b.uni, li, vec![Dec { step: wd, attack: vec![muts[mi].0.clone()], ..Default::default() }]);
+                    let case = enum_case(&b.uni, li, vec![Dec { step: wd, attack: muts[mi].0.clone(), ..Default::default() }]);
                     let mut atk = Attacker::new(&w);
                     let mut out = run_case(u, &case, &mut atk, false);
                     if let Some(e) = &out.harness_error {
@@ -178,9 +180,9 @@ pub fn run(u: &mut Universe, b: &Batch, st: &mut Stats) {
                 let mut rng = Rng::new(rng::derive(b.seed, "C02-flip", idx));
                 let li = rng.below(attack::race_lookups().len() as u64) as usize;
                 let (m, undo) = rng.pick(&muts).clone();
-                let undo = match undo {
-                    Some(u) => u,
-                    None => continue,
+                let (m, undo) = match (m.into_iter().next(), undo) {
+                    (Some(m), Some(u)) => (m, u),
+                    _ => continue,
                 };
                 let w = attack::race_world();
                 let base = enum_case(&b.uni, li, vec![]);
